@@ -266,3 +266,41 @@ package protocol
 //@   unproved index@"t.requests[apiVersion-minVersion]" registry invariant: typesOf() fills requests[v-min] for every min <= v <= max
 //@   loop 0 invariant 0 <= d.remain && d.remain <= 0x7fffffff && 0 <= i
 //@   loop 0 decreases d.remain + ite(d.err == nil, 1, 0)
+
+//@ property C05
+
+//@ spec pageOK(p any) bool
+//@   macro
+//@   def p != nil && 0 <= p.length && p.length <= 65536 && p.buffer != nil
+
+// the byte stored at absolute offset o of a run of contiguous pages
+//@ spec pgbyte(pages any, o int64) byte
+//@   macro
+//@   def pages[(o - pages[0].offset) / 65536].buffer[(o - pages[0].offset) % 65536]
+
+//@ spec pagesOK(pages any) bool
+//@   macro
+//@   def (forall i :: 0 <= i && i < len(pages) ==> pageOK(pages[i]) && pages[i].offset == pages[0].offset + int64(i) * 65536) && (forall i :: 0 <= i && i < len(pages) - 1 ==> pages[i].length == 65536) && (forall i, j :: 0 <= i && i < j && j < len(pages) ==> pages[i].buffer != pages[j].buffer)
+
+//@ func (*page).ReadAt
+//@   requires pageOK(p) && p.offset <= off && off <= p.offset + 65536
+//@   requires b.base != p.buffer
+//@   modifies elems(b)
+//@   let avail = max(int64(p.length) - (off - p.offset), 0)
+//@   ensures int64(result0) == min(int64(len(b)), avail) && result1 == nil
+//@   ensures forall k :: 0 <= k && k < result0 ==> b[k] == p.buffer[off - p.offset + int64(k)]
+
+//@ func (contiguousPages).indexOf
+//@   pure
+//@   requires len(pages) == 0 || pages[0] != nil
+//@   ensures len(pages) == 0 ==> result == 0
+//@   ensures len(pages) > 0 ==> result == int((offset - pages[0].offset) / 65536)
+
+//@ func (contiguousPages).slice
+//@   pure
+//@   requires len(pages) >= 1 && pages[0] != nil && pages[0].offset <= begin && begin <= end && end <= pages[0].offset + int64(len(pages)) * 65536
+//@   let i = int((begin - pages[0].offset) / 65536)
+//@   let j0 = int((end - pages[0].offset) / 65536)
+//@   let j = ite(j0 < len(pages), j0 + 1, j0)
+//@   ensures same(result, pages[i:j])
+
